@@ -19,13 +19,20 @@ cells that does not exist (deleted) are made on the stale handle (`DeletedObject
 existed there is no handle and the harness answers `err Deleted` itself.  Values and graph nodes are attributed to
 cells ids through the implementation objects, including those of deleted cells (an orphaned implementation object
 that still held a value, or a graph node of it, would show up under the id).
+Limit and administrative ops: `maxdepth n` (`mx.set_recursion(n)`), `admin start|stop|get|clear|tracestack`
+(`mx.start_stacktrace()` … `with mx.trace_stack(): pass`), `admin getrecursion|geterror|gettraceback|setsame`
+(`mx.get_recursion()`, `mx.get_error()`, `mx.get_traceback()`, `mx.set_recursion(mx.get_recursion())`); the
+observation `maxdepth` is `mx.get_recursion()`.
 """
 from . import core
 from .expr import Renderer, sexp, parse_sexp, KINDS
 from .impl import mx, close_all, quiet, err_kind
 from modelx.core.errors import DeepReferenceError, NoneReturnedError, FormulaError
 
-OBS = ["values", "graph", "refgraph", "log", "tb", "quiescent"]
+OBS = ["values", "graph", "refgraph", "log", "tb", "quiescent", "maxdepth"]
+
+# administrative calls: they must not change anything an evaluation depends on (op `admin <what>`)
+ADMIN = ["start", "stop", "get", "clear", "tracestack", "getrecursion", "geterror", "gettraceback", "setsame"]
 
 
 def val_s(v):
@@ -72,6 +79,7 @@ class ExecImpl:
         if not nested:
             close_all()
         deep_counter.install()
+        self._stop_trace()
         self.old_depth = mx.get_recursion()
         with quiet():
             self.m = mx.new_model("Mn" if nested else "M")
@@ -111,6 +119,20 @@ class ExecImpl:
 
     def _log(self, cid, key):
         self.log.append(node_s(cid, key))
+        # how deep the formulas are nested right now (the executor's own stack, whichever object it is)
+        d = len(mx.core.mxsys.executor.callstack)
+        if d > self.maxnest:
+            self.maxnest = d
+
+    maxnest = 0
+
+    @staticmethod
+    def _stop_trace():
+        with quiet():
+            try:
+                mx.stop_stacktrace()
+            except Exception:       # noqa: BLE001
+                pass
 
     def ref_space(self, r):
         return 0 if r < self.n_rn else 1
@@ -153,6 +175,7 @@ class ExecImpl:
         return c is not None and c._is_valid()
 
     def close(self):
+        self._stop_trace()
         mx.set_recursion(self.old_depth)
         if self.nested:
             recalc = mx.get_recalc()
@@ -257,6 +280,11 @@ class ExecImpl:
                 if kind == "setcached":
                     self.cells[int(op[1])].is_cached = (op[2] == "1")
                     return "ok"
+                if kind == "maxdepth":
+                    mx.set_recursion(int(op[1]))
+                    return "ok"
+                if kind == "admin":
+                    return self.admin(op[1])
                 if kind == "obs":
                     return self.observe(op[1])
         except BaseException as e:      # noqa: BLE001
@@ -267,7 +295,34 @@ class ExecImpl:
             return "err " + err_kind(e)
         return "bad-op"
 
+    def admin(self, what):
+        if what == "start":
+            mx.start_stacktrace()
+        elif what == "stop":
+            mx.stop_stacktrace()
+        elif what == "get":
+            mx.get_stacktrace()
+        elif what == "clear":
+            mx.clear_stacktrace()
+        elif what == "tracestack":
+            with mx.trace_stack():
+                pass
+        elif what == "getrecursion":
+            return "ok %d" % mx.get_recursion()
+        elif what == "geterror":
+            mx.get_error()
+        elif what == "gettraceback":
+            mx.get_traceback()
+            mx.get_traceback(show_locals=True)
+        elif what == "setsame":
+            mx.set_recursion(mx.get_recursion())
+        else:
+            return "bad-op"
+        return "ok"
+
     def observe(self, what):
+        if what == "maxdepth":
+            return "maxdepth %d" % mx.get_recursion()
         if what == "values":
             items = []
             for cid, impls in self.impls.items():
